@@ -225,6 +225,8 @@ def convert (v0 : GoVal) (t : ParamTy) : Res Cause GoVal :=
     match v with
     | .bytes b => .ok (.str b)
     | .time _ => .unmodelled "time.Time.String"
+    -- a whole-number float is the text an object node prints (`writeObject`), not fmt's exponent form
+    | .flt k q => (if isWholeSmall q then fmtFloatF k q else fmtFloatG k q).bind fun b => .ok (.str b)
     | w => (sprint w).bind fun b => .ok (.str b)
   | .anys =>
     match v with
